@@ -86,16 +86,15 @@ Definition spec_delete (A : agraph) (n : ref) (m : mode) : agraph :=
 Definition spec_delete_subtree (A : agraph) (n : ref) : agraph := a_remove A (a_anc A n).
 
 (* update_node: "Replaces old_node node with new_node": new takes the place of old in every
-   edge and brings along its own parent nodes that are not members yet (with their edges; a
-   member keeps the edges it has in the graph; old itself stays if new hangs on it) *)
+   edge of the graph; then the graph is completed with new and all its ancestors (objects that
+   are not remaining members contribute the parent links they have as objects) *)
 Definition spec_update_node (U A : agraph) (old new : ref) : agraph :=
   let f := fun x => if x =? old then new else x in
-  let A1 := a_map f A in
-  let R := a_anc U new in
   let keep := filter (fun x => negb (x =? old)) (an A) in
-  mkA (keep ++ R)
-      (ae A1 ++ filter (fun e => memb (snd e) R && negb (memb (snd e) keep)) (ae U))
-      (filter (fun x => negb (fst x =? old)) (al A) ++ filter (fun x => memb (fst x) R) (al U)).
+  let E1 := ae (a_map f A) ++ filter (fun e => negb (memb (snd e) keep)) (ae U) in
+  let T := mkA (an U) E1 (al U) in
+  let N := keep ++ a_anc T new in
+  mkA N (filter (fun e => memb (snd e) N) E1) (filter (fun x => memb (fst x) N) (al U)).
 
 (* update_subtree: "Changes old_subtree subtree to new_subtree": old and its ancestors go, a
    copy of new and its ancestors comes, the children of old hang on the copy of new.
@@ -181,6 +180,14 @@ Definition acyc_guard_b (s : state) (o : op) : bool :=
   | _ => true
   end.
 
+(* the set-level meaning of update_node is stated for a new node that does not hang on the
+   node it replaces *)
+Definition spec_guard_b (s : state) (o : op) : bool :=
+  match o with
+  | OUpdNode old new => match closure (fst s) new with Ok R => negb (memb old R) | Raise _ => false end
+  | _ => true
+  end.
+
 Definition acyclic_b (h : heap) (g : graph) : bool := negb (has_cycle h g).
 
 (* ------------------------------------------------------------------ comparison with the code *)
@@ -224,6 +231,7 @@ Definition state_eqb (s1 s2 : state) : bool :=
 Definition agree (s : state) (o : op) (ob : obs) : bool :=
   match run_op s o, ob with
   | Ok s', OOk ho go => state_eqb s' (ho, go)
+  | Raise Unmodelled, _ => true          (* the model declines to predict (never inside the domain) *)
   | Raise e, ORaise e' => exn_eqb e e'
   | _, _ => false
   end.
@@ -234,6 +242,7 @@ Definition agree (s : state) (o : op) (ob : obs) : bool :=
    acyclic graph stays acyclic unless the operation explicitly closes a cycle. *)
 Definition holds_wf (ho : heap) (go : graph) : bool := wf_b ho go.
 Definition holds_spec (s : state) (o : op) (ho : heap) (go : graph) : bool :=
+  negb (spec_guard_b s o) ||
   a_eqb (abs ho go) (spec_op (universe (fst s)) (abs (fst s) (snd s)) o).
 Definition holds_acyclic (s : state) (o : op) (ho : heap) (go : graph) : bool :=
   if acyclic_b (fst s) (snd s) && acyc_guard_b s o then acyclic_b ho go else true.
@@ -249,8 +258,12 @@ Definition holds_b (s : state) (o : op) (ob : obs) : bool :=
   else true.
 
 (* what the driver evaluates per step *)
+Definition declined (s : state) (o : op) : bool :=
+  match run_op s o with Raise Unmodelled => true | _ => false end.
+
 Definition check (s : state) (o : op) (ob : obs) : list bool :=
-  [agree s o ob; holds_b s o ob; in_domain s o;
+  [agree s o ob && negb (declined s o && in_domain s o); holds_b s o ob; in_domain s o;
    match ob with OOk ho go => holds_wf ho go | _ => false end;
    match ob with OOk ho go => holds_spec s o ho go | _ => false end;
-   match ob with OOk ho go => holds_acyclic s o ho go | _ => false end].
+   match ob with OOk ho go => holds_acyclic s o ho go | _ => false end;
+   declined s o].
